@@ -34,7 +34,45 @@ def ctor_status(W, term, depth=0):
             return {S.STATUS_CTORS[term[1]]}
         if term[1] in W.prog.bodies:
             return fn_statuses(W, term[1], depth + 1)
+        if term[1] in ("core::convert::Into::into", "core::convert::From::from") and len(term[3]) == 1:
+            # a value of a private error type that implements actix's ResponseError, turned into actix_web::Error by the
+            # framework's blanket `impl<T: ResponseError> From<T> for Error`: the status is the type's status_code()
+            x = term[3][0]
+            if x[0] == "agg" and isinstance(x[1], tuple) and x[1][0] == "adt":
+                return response_error_status(W, x[1][1])
+    if term[0] == "agg" and isinstance(term[1], tuple) and term[1][0] == "adt":
+        # (the same value propagated by `?`, whose conversion to actix_web::Error is that blanket impl)
+        return response_error_status(W, term[1][1])
     return None
+
+
+RESPONSE_ERROR = "actix_web::error::response_error::ResponseError"
+STATUS_CONSTS = {"BAD_REQUEST": 400, "UNAUTHORIZED": 401, "FORBIDDEN": 403, "NOT_FOUND": 404, "METHOD_NOT_ALLOWED": 405, "CONFLICT": 409, "GONE": 410,
+                 "PAYLOAD_TOO_LARGE": 413, "UNSUPPORTED_MEDIA_TYPE": 415, "UNPROCESSABLE_ENTITY": 422, "TOO_MANY_REQUESTS": 429,
+                 "INTERNAL_SERVER_ERROR": 500, "NOT_IMPLEMENTED": 501, "BAD_GATEWAY": 502, "SERVICE_UNAVAILABLE": 503, "OK": 200, "CREATED": 201, "NO_CONTENT": 204}
+
+
+def response_error_status(W, adt):
+    """Statuses of a workspace type's `impl ResponseError`: the trait's default (500) when status_code() is not overridden,
+    the constants status_code() returns when it is; None when error_response() is hand-written (not modelled)."""
+    imps = [i for i in W.prog.impls if i.get("trait") == RESPONSE_ERROR and i.get("self_ty") == adt]
+    if len(imps) != 1:
+        return None
+    items = {it["name"]: it["def"] for it in imps[0].get("items", [])}
+    if "error_response" in items:
+        return None
+    if "status_code" not in items:
+        return {500}
+    b = W.prog.bodies.get(items["status_code"])
+    if b is None:
+        return None
+    out = set()
+    for site, term in S.exits(W, b):
+        nm = term[1].rsplit("::", 1)[-1] if term[0] == "const" and isinstance(term[1], str) and "StatusCode::" in term[1] else None
+        if nm not in STATUS_CONSTS:
+            return None
+        out.add(STATUS_CONSTS[nm])
+    return out or None
 
 
 def fn_statuses(W, key, depth=0, by_variant=False):
